@@ -18,6 +18,7 @@ RULE = (
     "the faces around every node walked across shared edges in the faces' own counter-clockwise orientation "
     "(vlib/refmodel.dual_ring) must equal the dual face as a cyclic sequence; dual nodes must sit at the face centroids. "
     "Routes to the judged grid: topology arrays, the same with Cartesian node coordinates at radius 2.5 / 40 / 6371229, and the dual of a face subset taken from a fresh grid / after node_face_connectivity / after the whole grid's dual (the subset judged against the mesh it reports). "
+    "In a third of the cases the face centres are then moved through the public setters and the dual is requested again (Grid and UxDataArray): its nodes must sit at the centres the grid reports now. "
     "Non-trivial = mixed face sizes, or a partial mesh, or a pole/antimeridian node, or valence >= 6; distinct by case hash."
 )
 ASSUMPTIONS = [
@@ -85,6 +86,8 @@ def _case(draw, tier):
         "drop": draw(st.lists(st.integers(0, 10_000), min_size=1, max_size=4)),
         # storage type of node_lon / node_lat (single-precision sources are judged on the positions their values denote)
         "coord_dtype": draw(sampled_from(["float64", "float64", "float64", "float32"])),
+        # history: 0 = none; k > 0: after the first dual the face centres are moved (towards corner k) through the setters
+        "move_centres": draw(sampled_from([0, 0, 0, 1, 2, 5])),
     }
 
 
@@ -234,7 +237,7 @@ def run_case(case, ctx):
     if uxda is not None and dual_from_da is None:
         dual_from_da = uxda.get_dual()
 
-    def judge_grid(d, tag, mesh=mesh, site=site):
+    def judge_grid(d, tag, mesh=mesh, site=site, centres=None):
         faces, nodes = mesh["faces"], mesh["nodes"]
         n_node, n_face = len(nodes), len(faces)
         closed = refmodel.is_closed(faces)
@@ -262,7 +265,7 @@ def run_case(case, ctx):
             bad("padding_at_end", "dtype", f"{tag}: {conn.dtype}")
         # ---- dual nodes at the face centres
         ctx.ev("dual_nodes_are_face_centres")
-        cxyz = writers.face_centres_xyz(mesh)
+        cxyz = writers.face_centres_xyz(mesh) if centres is None else centres
         dxyz = S.ll2xyz_np(np.asarray(d.node_lon.values, float), np.asarray(d.node_lat.values, float))
         for k in range(n_face):
             if not S.same_position(tuple(cxyz[k]), tuple(dxyz[k]), POS_TOL):
@@ -341,6 +344,35 @@ def run_case(case, ctx):
             fails.append(f)
         if fails:
             return fails
+    cur_centres = None
+    if case.get("move_centres") and not f32 and route in ("topology", "radius"):
+        # history: after the dual has been built, the face centres are replaced through the public setters (each moved
+        # a fifth of the way towards one of its corners, so it stays strictly inside its convex face and every ring keeps
+        # its order); a dual requested afterwards must have its nodes at the centres the grid now reports
+        import xarray as xr
+
+        mx = meshgen.mesh_xyz(mesh)
+        c0 = writers.face_centres_xyz(mesh)
+        moved = []
+        for k, f in enumerate(faces):
+            v = 0.8 * np.asarray(c0[k], float) + 0.2 * mx[f[case["move_centres"] % len(f)]]
+            moved.append(v / np.linalg.norm(v))
+        moved = np.array(moved)
+        ll = [S.xyz2ll(tuple(v)) for v in moved]
+        g.face_lon = xr.DataArray(np.array([p[0] for p in ll]), dims=["n_face"])
+        g.face_lat = xr.DataArray(np.array([p[1] for p in ll]), dims=["n_face"])
+        g.face_x = xr.DataArray(moved[:, 0].copy(), dims=["n_face"])
+        g.face_y = xr.DataArray(moved[:, 1].copy(), dims=["n_face"])
+        g.face_z = xr.DataArray(moved[:, 2].copy(), dims=["n_face"])
+        ctx.label("history:dual-after-centres-moved")
+        judge_grid(g.get_dual(), "Grid.get_dual after the face centres were moved", centres=moved, site=site + ":after-moving-centres")
+        if fails:
+            return fails
+        if uxda is not None:
+            judge_grid(uxda.get_dual().uxgrid, "UxDataArray.get_dual after the face centres were moved", centres=moved, site=site + ":after-moving-centres")
+            if fails:
+                return fails
+            dual_from_da, dual, cur_centres = uxda.get_dual(), g.get_dual(), moved
     if uxda is not None:
         res = dual_from_da
         ctx.ev("data_swapped_unpermuted")
@@ -363,7 +395,7 @@ def run_case(case, ctx):
             bad("data_swapped_unpermuted", "grid", f"result grid n_node {getattr(dg, 'n_node', None)} n_face {getattr(dg, 'n_face', None)}; primal n_face {n_face} n_node {n_node}", site + ":data-" + case["centred"])
         else:
             before = len(fails)
-            judge_grid(dg, "UxDataArray.get_dual")
+            judge_grid(dg, "UxDataArray.get_dual", centres=cur_centres)
             if len(fails) == before:
                 a = np.asarray(dg.face_node_connectivity.values)
                 b = np.asarray(dual.face_node_connectivity.values)
